@@ -63,6 +63,31 @@ Theorem response_reported : forall r n vs,
 Proof. exact HttpProofs.response_reported. Qed.
 Print Assumptions response_reported.
 
+(* the page's cookie collection reports every cookie the response sets, under
+   its name and with its value, whatever the value -- "legacy=; Max-Age=0" is a
+   cookie with the empty value -- and nothing else *)
+Theorem cookies_reported : forall r n v, NoDup (map fst (r_cookies r)) -> In (n, v) (r_cookies r) ->
+  cookie_find n (reported_cookies r) = Some v.
+Proof. exact HttpProofs.cookies_reported. Qed.
+Print Assumptions cookies_reported.
+
+Theorem cookies_reported_only : forall r n, ~ In n (map fst (r_cookies r)) -> cookie_find n (reported_cookies r) = None.
+Proof. exact HttpProofs.cookies_reported_only. Qed.
+Print Assumptions cookies_reported_only.
+
+(* histories through one driver instance: a request's headers, cookies and user
+   agent depend only on the driver's defaults and that request's own parameters,
+   not on the requests issued before it *)
+Theorem history_independent : forall names d ps k p, nth_error ps k = Some p ->
+  nth_error (history_spec names d ps) k = Some (snd (open_spec names d p)).
+Proof. exact HttpProofs.history_nth. Qed.
+Print Assumptions history_independent.
+
+Theorem history_prefix_irrelevant : forall names d pre p,
+  nth_error (history_spec names d (pre ++ [p])) (List.length pre) = nth_error (history_spec names d [p]) 0.
+Proof. exact HttpProofs.history_prefix_irrelevant. Qed.
+Print Assumptions history_prefix_irrelevant.
+
 (* the pinned code *)
 Theorem header_case_pinned_refuted :
   exists d q name,
@@ -101,3 +126,19 @@ Example status_rule_satisfiable :
   accepted 404 [(404, Some [GLit 102; GStar])] [] (bs "http://x/") = false /\
   accepted 503 [] [(503, None)] (bs "http://x/") = true /\ accepted 204 [] [] [] = true.
 Proof. repeat split; reflexivity. Qed.
+
+(* an empty-valued cookie among the cookies of a response is reported; a second
+   request through the driver carries the defaults and nothing of the first *)
+Example empty_cookie_and_history_satisfiable :
+  let r := mkResp 200 [] [(bs "sid", bs "abc123"); (bs "legacy", []); (bs "flag", [])] in
+  NoDup (map fst (r_cookies r)) /\ cookie_find (bs "legacy") (reported_cookies r) = Some [] /\
+  cookie_find (bs "sid") (reported_cookies r) = Some (bs "abc123") /\
+  let d := mkDrv [(bs "X-Tenant", [bs "default-tenant"])] [] [] in
+  let p1 := mkPar [(bs "X-Doc-Token", [bs "secret"]); (bs "x-tenant", [bs "doc-1"])] [] [] in
+  let p2 := mkPar [] [] [] in
+  history_spec [bs "X-Tenant"; bs "X-Doc-Token"] d [p1; p2] =
+  [([[bs "doc-1"]; [bs "secret"]], [], []); ([[bs "default-tenant"]; []], [], [])].
+Proof.
+  cbv zeta. split; [|repeat split; vm_compute; reflexivity].
+  repeat constructor; cbn; intros H; repeat (destruct H as [H|H]; [discriminate H|]); exact H.
+Qed.
